@@ -803,7 +803,17 @@ def r12_lookup_by_own_key(ctx):
                  % (bad[0]['icvn'], bad[0]['vriic'], bad[0]['fic'], bad[0]['tspc'], bad[1], bad[0]['file']))
 
 
+def r16_tables_per_instance(ctx):
+    """the index, the code table and the data element table hold what THEIR file says: entries are kept per instance - a
+    class-level or module-level list that every instance appends to makes every key ambiguous from the second
+    instantiation on, and lets the packaged index answer for an explicit directory (C18.R2, shared)"""
+    from . import c18
+    for o in c18.r2_shared_state(ctx):
+        yield o
+
+
 RULES = [
+    Rule('C16.R16', 'shared with C18.R2: no module/class-level mutable state (index and table entries are per instance)', r16_tables_per_instance, floor=22),
     Rule('C16.R1', 'index entries name existing well-formed maps; keys unambiguous; packaged', r1_index, floor=30),
     Rule('C16.R2', 'every data_ele / external code reference resolves; dataele lengths sane', r2_refs, floor=20000),
     Rule('C16.R3', 'usage/pos/seq/repeat/max_use/regex parse as the constructors parse them; seq is 1..n', r3_fields, floor=20000),
